@@ -191,6 +191,9 @@ func genWorld(rng *core.Rng, i int, inEnvelope bool) world.WorldSpec {
 	s.B, s.MaxLe = genBehaviour(rng, inEnvelope)
 	// order of the data group hash list in the security object: a SEQUENCE OF, ascending by custom only
 	s.HashOrder = core.Pick(rng, []int{0, 0, 0, 1, 2, 3, 4})
+	// EF.CardSecurity (PACE-CAM worlds): signed by the SOD's signer or by another generation, with further keys or not
+	s.CardSecVariant = core.Pick(rng, []int{0, 0, 0, 1, 2, 3})
+	s.CardSecExtraKeys = core.Pick(rng, []int{0, 0, 1, 2})
 	s.ExtraCerts = core.Pick(rng, []int{0, 0, 0, 1})
 	s.ExtraFirst = rng.Bool()
 	s.EmbedCSCA = rng.Chance(1, 6)
